@@ -195,6 +195,12 @@ impl ActiveEdge {
                 // we want to avoid dividing by 0 which can happen if we exited the loop above early
                 if (cury + 1) < self.y2 {
                     self.slope_x = div_fixed16_fixed16(self.next_x - self.old_x, self.next_y - self.old_y) >> 2;
+                    // the new segment starts at old_y, which is usually part of the way through
+                    // this sample row, so only the rest of the row is left to advance by.
+                    // Advancing by a whole row would overshoot the segment (and the path's bounds).
+                    let rest = dot2_to_dot16(cury + 1) - self.old_y;
+                    self.fullx += ((self.slope_x as i64 * rest as i64) >> (16 - SAMPLE_SHIFT)) as i32;
+                    return;
                 }
             }
             self.fullx += self.slope_x;
